@@ -155,12 +155,17 @@ func RunC09(tier string) int {
 				Writes   int    `json:"writes"`
 				Unstable int    `json:"unstable_cases"`
 				Example  string `json:"example"`
+				UnstNC   int    `json:"unstable_nocache_cases"`
+				ExNC     string `json:"example_nocache"`
 			}
 			if json.Unmarshal(o.Res, &r) != nil {
 				continue
 			}
 			run.Eval(r.Writes)
 			run.Count("output_hash_evaluations", r.Writes)
+			if r.UnstNC > 0 {
+				run.Violation("output-hash-depends-on-scheduling flavour=no-cache", fmt.Sprintf("%d of %d targets got different output hashes (the flavour used for no-cache / cache-disabled targets) for identical outputs: %s", r.UnstNC, r.Cases, r.ExNC), map[string]any{"example": r.ExNC})
+			}
 			if r.Unstable > 0 {
 				run.Violation("output-hash-depends-on-scheduling", fmt.Sprintf("%d of %d targets got different output hashes for identical outputs: %s", r.Unstable, r.Cases, r.Example), map[string]any{"example": r.Example})
 			}
